@@ -193,6 +193,13 @@ def paillier (N : Nat) : Hom Nat Nat Nat Int where
 
 /-! ## hash commitments (`hashcom`) -/
 
+/-- `hashcom.KeySize`: length of a hash-commitment key in bytes -/
+def hashKeySize : Nat := 32
+/-- `hashcom.DigestSize`: length of a commitment and of a witness in bytes -/
+def hashDigestSize : Nat := 32
+/-- the keyed hash `hashcom` instantiates `H` with (the driver uses `Hash.blake2b key input 32`) -/
+def hashFunctionName : String := "blake2b.New256"
+
 /-- the string hashed by `hashcom.CommitWithWitness`: `h.Write(message); h.Write(witness[:])` -/
 def hashFrame (m w : List UInt8) : List UInt8 := m ++ w
 
